@@ -1,1 +1,16 @@
-"""Bounded exhaustive explorer for the teneva properties (see /verif/DESIGN.md)."""
+"""Bounded exhaustive explorer for the teneva properties (see /verif/DESIGN.md).
+
+Importing the package binds `teneva` to the tree under test: ${TENEVA_SRC:-/repo} is put
+first on sys.path (pure Python, nothing to build), so every check - including helper
+subprocesses - runs the current working tree."""
+import os
+import sys
+import warnings
+
+_SRC = os.environ.get('TENEVA_SRC', '/repo')
+if _SRC not in sys.path[:1]:
+    sys.path.insert(0, _SRC)
+warnings.filterwarnings('ignore', category=SyntaxWarning)
+os.environ.setdefault('OMP_NUM_THREADS', '1')
+os.environ.setdefault('OPENBLAS_NUM_THREADS', '1')
+os.environ.setdefault('MKL_NUM_THREADS', '1')
